@@ -1019,11 +1019,18 @@ def graphql_schema(
         id_type: graphql.GraphQLScalarType = graphql.GraphQLID
     else:
         id_deserializer, id_serializer = id_encoding
+        parse_literal = graphql.GraphQLID.parse_literal
+        if id_deserializer is not None:
+            # IDs written as literals in the query must be decoded like those passed
+            # through variables (parse_value)
+            def parse_literal(value_node, variables=None, _decode=id_deserializer):
+                return _decode(graphql.GraphQLID.parse_literal(value_node, variables))
+
         id_type = graphql.GraphQLScalarType(
             name="ID",
             serialize=id_serializer or graphql.GraphQLID.serialize,
             parse_value=id_deserializer or graphql.GraphQLID.parse_value,
-            parse_literal=graphql.GraphQLID.parse_literal,
+            parse_literal=parse_literal,
             description=graphql.GraphQLID.description,
         )
 
